@@ -118,6 +118,48 @@ def oracle_diff(case, ctx):
                 + [f'mod:{k}' for k in cfg['mods']])
 
 
+# ------------------------------------------------------------------ (4b) the same through files: factory_env_from_yaml
+
+
+def strat_file(tier):
+    return st.fixed_dictionaries({'cfgs': st.lists(configs.config_s(), min_size=2, max_size=3), 'seed': gen.seed_s,
+                                  'actions': st.lists(st.integers(0, 7), min_size=3, max_size=20), 'corrupt_last': st.booleans()})
+
+
+def oracle_file(case, ctx):
+    import tempfile
+    import yaml
+    ops = [['reset']] + [['step', a] for a in case['actions']] + [['obs']]
+    with tempfile.TemporaryDirectory(prefix='vgv_c17_') as d:
+        path = os.path.join(d, 'config.yaml')          # one path, rewritten: every build must reflect the file as it is now
+        for k, cfg in enumerate(case['cfgs']):
+            data = configs.data_of(cfg)
+            with open(path, 'w') as f:
+                yaml.safe_dump(data, f)
+            env = guarded(ctx, f'factory_env_from_yaml (file holding {cfg["base"]} {cfg["mods"]})', factory_env_from_yaml, path)
+            ref = factory_env_from_data(copy.deepcopy(data))
+            env.set_seed(case['seed'])
+            ref.set_seed(case['seed'])
+            t1, t2 = trace.run_ops(env, ops), trace.run_ops(ref, ops)
+            if trace.first_difference(t1, t2) is not None:
+                ctx.fail(f'the environment built from the file does not behave like the configuration the file holds now ({cfg["base"]} {cfg["mods"]}; rewrite number {k} of the same path)',
+                         {'kind': 'yaml_file'})
+        if case['corrupt_last']:
+            data = configs.data_of(case['cfgs'][0])
+            data['reset_function']['name'] = 'no_such_reset'
+            with open(path, 'w') as f:
+                yaml.safe_dump(data, f)
+            try:
+                factory_env_from_yaml(path)
+            except (SchemaError, ValueError):
+                pass
+            except Exception as e:  # noqa: BLE001
+                ctx.fail(f'a file naming an unknown reset function raised {type(e).__name__}', {'kind': 'yaml_file'})
+            else:
+                ctx.fail('a file naming an unknown reset function was built (stale content of the same path?)', {'kind': 'yaml_file'})
+    ctx.ev.case(case, nt=True, classes=['rewritten_path'] + (['corrupted_rewrite'] if case['corrupt_last'] else []))
+
+
 # ------------------------------------------------------------------ (5) factory(name, **kw) == registry[name](..., **accepted kw)
 
 FACTORIES = {
@@ -365,6 +407,9 @@ CHECKS = [
     Check('differential_perturbed', oracle_diff, strategy=strat_diff, examples={'quick': 100, 'thorough': 300}, shards={'quick': 8, 'thorough': 16},
           rule='valid perturbations (non-square shapes, other counts, colour subsets, re-ordered action sub-lists, extra/reversed transitions, other observation functions/areas, scaled rewards) x seeds x generated action lists',
           required=['perturbed', 'mod:reset', 'mod:actions', 'mod:reverse_transitions', 'mod:vis']),
+    Check('yaml_files', oracle_file, strategy=strat_file, examples={'quick': 15, 'thorough': 60}, shards={'quick': 4, 'thorough': 16},
+          rule='2-3 (perturbed) configurations written one after the other to the same path and built with factory_env_from_yaml: each build behaves like the data the file holds now; a corrupted rewrite is rejected',
+          required=['rewritten_path', 'corrupted_rewrite']),
     Check('component_factories', oracle_factory, strategy=strat_factory, examples={'quick': 400, 'thorough': 1200}, shards={'quick': 4, 'thorough': 16},
           rule='factory(name, **kw) for all six component kinds with accepted, unaccepted and falsy-valued parameters == underlying function with the accepted parameters; missing required / unknown name -> ValueError',
           required=['unaccepted_param', 'falsy_param'] + [f'name:{k}:{n}' for k, (_, reg) in FACTORIES.items() for n in BUILTIN_NAMES[k]]),
